@@ -295,6 +295,10 @@ Theorem C10_run_eq_eval_nodes_partial : forall body pick p o kw v lg, nwf p ->
 Proof. exact nrun_value_sound. Qed.
 Print Assumptions C10_run_eq_eval_nodes_partial.
 
+Theorem C10_nwf_lift : forall p, NoDup (all_outputs p) -> consistent_defaults p = true -> nwf (lift p).
+Proof. exact nwf_lift. Qed.
+Print Assumptions C10_nwf_lift.
+
 (* the invariant behind it: the memo of a run holds the supplied keywords and, for every other key, the value of
    the specification - through the inner runs of nested functions *)
 Theorem C10_nrun_out_sound : forall body pick n p kw st o st' v, nwf p -> Inv body pick p kw st ->
